@@ -25,7 +25,10 @@ type Scenario struct {
 	Root     func()
 	Check    func(o *obs.Obs) string // "" or "signature|message"
 	PoolLIFO bool
-	Bound    int  // preemption bound, <0 = unbounded
+	Bound    int // preemption bound, <0 = unbounded
+	// RealDone lists the log kinds whose presence means a real-runtime execution is complete; nil = the scenario
+	// is not run by the free-running pass (it does not terminate by itself, or depends on the virtual clock)
+	RealDone []string
 	Sym      bool // sibling library goroutines (workers of one fork stage) are interchangeable
 	Sample   any  // printable description of the configuration
 	// Nontrivial reports whether the explored scenario is non-trivial given the number of distinct outcomes
